@@ -20,7 +20,7 @@ RULE = ("case = helper x array of 1..50 elements (float / int / list; non-unifor
         "input (n >= 2 or a proper extension / view); distinct by case index.")
 HELPERS = ["oversample_linspace", "oversample_piecewise_constant", "extend_linspace", "extend_constant",
            "append_one_sample", "integrals", "sum_over_indices", "interval_getset", "interval_2d", "interval_closed",
-           "interval_methods", "average", "round_trip"]
+           "interval_methods", "interval_object_history", "average", "round_trip"]
 REQUIRED_MONITORS = ["c17:" + h for h in HELPERS]
 ASSUMPTIONS = ["n >= 1; extension by n requires at least n+1 elements when the default mirror point is used"]
 NSHARDS = 16
@@ -233,6 +233,59 @@ def run_case(ctx, kind_, idx):
                     if not same(e1.array, H.extend_linspace(list(a), n, d), mag * 3) or \
                             not np.array_equal(np.asarray(e2.array, float), np.asarray(H.extend_constant(list(a), n, d), float)):
                         return fail("extend_by_one_interval", direction=d)
+                ctx.nontriv("c17", idx)
+            elif h == "interval_object_history":
+                # several operations on ONE object against a shadow list: a view computed earlier must never be served
+                # again after a write / extension (stale caches), writes must be visible in every later view
+                a = arr(rng, 2, 40).astype(float)
+                n = int(rng.integers(1, 9))
+                ia = IntervalArray(a.copy(), n)
+                sh = [float(v) for v in a]
+                steps = []
+                info.update({"len": len(a), "n": n, "steps": steps})
+                for _ in range(int(rng.integers(3, 9))):
+                    op = ["view", "closed", "write", "write_flat", "extend_lin", "extend_const", "read", "len"][int(rng.integers(0, 8))]
+                    steps.append(op)
+                    mag = max(abs(v) for v in sh) + 1.0
+                    if op == "view":
+                        if not same(ia.to_2d_array(), np.array(H.rows(sh, n), dtype=float), mag):
+                            return fail("view_after_history")
+                    elif op == "closed":
+                        dl = bool(rng.integers(0, 2))
+                        w = H.closed_rows(sh, n, dl)
+                        if not same(ia.to_2d_array_closed_intervals(drop_last=dl), np.array(w, dtype=float).reshape(len(w), n + 1), mag):
+                            return fail("closed_view_after_history")
+                    elif op == "write":
+                        flat = int(rng.integers(0, len(sh)))
+                        i, j = divmod(flat, n)
+                        v = float(rng.normal(0, 5))
+                        ia[i, j] = v
+                        sh[flat] = v
+                    elif op == "write_flat":
+                        flat = int(rng.integers(0, len(sh)))
+                        v = float(rng.normal(0, 5))
+                        ia[flat] = v
+                        sh[flat] = v
+                    elif op in ("extend_lin", "extend_const"):
+                        if len(sh) < n + 1 or len(sh) > 200:
+                            continue
+                        d = ["both", "left", "right"][int(rng.integers(0, 3))]
+                        if op == "extend_lin":
+                            ia.extend_linspace(direction=d)
+                            sh = H.extend_linspace(sh, n, d)
+                        else:
+                            ia.extend_constant(direction=d)
+                            sh = H.extend_constant(sh, n, d)
+                    elif op == "read":
+                        flat = int(rng.integers(0, len(sh)))
+                        i, j = divmod(flat, n)
+                        if abs(float(ia[i, j]) - sh[flat]) > 1e-9 * mag:
+                            return fail("read_after_history", flat=flat)
+                    else:
+                        if len(ia) != len(sh) or ia.nr_of_full_intervals() != len(sh) // n:
+                            return fail("len_after_history")
+                    if not same(ia.array, sh, mag):
+                        return fail("array_after_history", step=op)
                 ctx.nontriv("c17", idx)
             elif h == "average":
                 m = int(rng.integers(1, 50))
